@@ -423,11 +423,11 @@ def h_ess(ctx, c, n, what):
             a, b = ctx.real('a'), ctx.real('b')
             ctx.assume(Not(a == 0))
             e2 = mcmc.eff_sample_size(ctx.array([[a * v + b for v in ch] for ch in chains]))
-            ctx.claim('invariant_under_affine_map', close(e2, e, 1e-6))
+            ctx.claim_poly('invariant_under_affine_map', e2, e)
         else:
             perm = list(itertools.permutations(range(c)))[ctx.choice('chain_perm', len(list(itertools.permutations(range(c)))))]
             e2 = mcmc.eff_sample_size(ctx.array([chains[k] for k in perm]))
-            ctx.claim('invariant_under_chain_reordering', close(e2, e, 1e-6))
+            ctx.claim_poly('invariant_under_chain_reordering', e2, e)
 
 
 HARNESSES = [
@@ -446,9 +446,9 @@ HARNESSES = [
     H('ess_formula_c1_n3', h_ess, dict(c=1, n=3, what='formula'), bounds='ESS formula, 1 chain of 3'),
     H('ess_formula_c1_n4', h_ess, dict(c=1, n=4, what='formula'), bounds='ESS formula, 1 chain of 4'),
     H('ess_formula_c2_n3', h_ess, dict(c=2, n=3, what='formula'), bounds='ESS formula, 2 chains of 3', tiers=('thorough',)),
-    H('ess_permutation_c2_n3', h_ess, dict(c=2, n=3, what='perm'), bounds='ESS chain order, 2 chains of 3', tiers=('thorough',)),
+    H('ess_permutation_c2_n3', h_ess, dict(c=2, n=3, what='perm'), bounds='ESS chain order, 2 chains of 3', tiers=('thorough',), path_timeout=900),
     H('ess_affine_c1_n3', h_ess, dict(c=1, n=3, what='affine'), bounds='ESS affine invariance, 1 chain of 3'),
-    H('ess_affine_c2_n3', h_ess, dict(c=2, n=3, what='affine'), bounds='ESS affine invariance, 2 chains of 3', tiers=('thorough',)),
+    H('ess_affine_c2_n3', h_ess, dict(c=2, n=3, what='affine'), bounds='ESS affine invariance, 2 chains of 3', tiers=('thorough',), path_timeout=900),
     H('ess_formula_c2_n4', h_ess, dict(c=2, n=4, what='formula'), bounds='ESS formula, 2 chains of 4', tiers=('thorough',)),
 ]
 
